@@ -86,6 +86,9 @@ fn recognize_http(method: &str, mut path: &str) -> Result<Proxy, anyhow::Error> 
     }
     if let Some(i) = path.find("://").map(|i| i + 3) {
         if let Some(j) = path[i..].find('/').map(|j| j + i) { path = &path[i..j] } else { path = &path[i..] }
+    } else if "CONNECT" != method {
+        // origin-form ("GET /index.html"): a proxy is asked with the absolute form, there is no host to tunnel to
+        bail!("unsupported http request target: {}", path);
     }
     if "CONNECT" == method {
         let h_end = path.rfind(':').ok_or_else(|| anyhow!("invalid http CONNECT uri"))?;
